@@ -1,4 +1,5 @@
 import OmbottModel.Py
+import OmbottModel.Py.IntLim
 import OmbottModel.Py.Text
 import OmbottModel.Py.Wsgi
 import OmbottModel.Model.Stream
@@ -136,12 +137,12 @@ def hpRead (row : HPRow) (got : Option Entry) (rd : Except Err Str) : Except Err
       | _ => .ok .none
   else if row.reader == "int".toList then
     match got with
-    | some (.one s) => match pyInt s with            -- `int('12')`
+    | some (.one s) => match pyIntLim s with            -- `int('12')`
       | some i => .ok (.int i)
       | Option.none => .error .valueError
     | some (.many _) => .error .typeError            -- `int([...])`
     | Option.none => match row.dflt with
-      | .str s => match pyInt s with                 -- `int('')` for the `''` default
+      | .str s => match pyIntLim s with                 -- `int('')` for the `''` default
         | some i => .ok (.int i)
         | Option.none => .error .valueError
       | .int i => .ok (.int i)
@@ -368,7 +369,7 @@ def setStatusFull : StArg → Except Err (Nat × Str)
       let st := strip s
       match splitWs st with
       | [] => .error .indexError                      -- `status.split()[0]` of an all-blank line
-      | tok :: _ => match pyInt tok with
+      | tok :: _ => match pyIntLim tok with
         | Option.none => .error .valueError
         | some code =>
           if 100 ≤ code ∧ code ≤ 999 then .ok (code.toNat, st)   -- `st` is non-empty: `str(status or …)`
